@@ -79,7 +79,8 @@ fn format_doc_comment(lines: &[String]) -> (Option<String>, Option<String>) {
     if lines.iter().any(|s| is_blank(s)) {
         let paragraphs = split_paragraphs(lines);
         let short = paragraphs[0].clone();
-        let long = paragraphs.join("\r\n\r\n");
+        // writer converts line feeds, so carriage returns must not be added here
+        let long = paragraphs.join("\n\n");
         (Some(remove_period(short)), Some(long))
     } else {
         let short = merge_lines(lines);
